@@ -15,7 +15,7 @@ import heapq
 import re
 
 from . import domain as D
-from .domain import (TOP, BOT, Agg, En, Arr, ArrS, Ref, FnV, Str, Opaque, Rng, Fl,
+from .domain import (TOP, BOT, Agg, En, Arr, ArrS, Ref, FnV, Str, Opaque, Rng, Fl, It, BoxV,
                      join, is_scalar)
 
 LOG_MACROS = {"trace", "debug", "info", "warn", "error", "log", "log_enabled"}
@@ -156,6 +156,8 @@ class Interp:
             if isinstance(step, int):
                 if isinstance(v, Agg):
                     v = v.f[step] if step < len(v.f) else TOP
+                elif isinstance(v, BoxV):
+                    pass    # Box.0 / Unique.pointer / NonNull.pointer: the same pointer
                 elif isinstance(v, FnV):
                     v = v.env.f[step] if (v.env is not None and step < len(v.env.f)) else TOP
                 else:
@@ -304,6 +306,8 @@ class Interp:
         for pe in place["p"]:
             if pe == "*":
                 v = self.load(st, alloc, path)
+                if isinstance(v, BoxV):
+                    v = v.ref
                 if isinstance(v, Ref):
                     alloc, path = v.alloc, v.path
                 else:
@@ -540,6 +544,10 @@ class Interp:
             if ck.startswith("PointerCoercion") or ck.startswith("PtrToPtr"):
                 return a
             if ck.startswith("Transmute"):
+                if isinstance(a, BoxV) and to.startswith("*"):
+                    return a.ref
+                if isinstance(a, (Ref, BoxV)) and not (to in D.INT_TYPES):
+                    return a
                 return D.top_of_int(to) if to in D.INT_TYPES else TOP
             return TOP
         if k == "ref" or k == "rawptr":
@@ -658,6 +666,24 @@ class Interp:
             return True
         if c[0] == "not":
             return self.refine_bool(st, depth, c[1], 1 - truth)
+        if c[0] == "addrvar":
+            _, alloc, path, vi, is_eq = c
+            if alloc not in st.store:
+                return True
+            cur = self.load(st, alloc, path)
+            if isinstance(cur, En):
+                same = (truth == 1) == is_eq
+                if same:
+                    if vi not in cur.vs:
+                        return False
+                    new = En({vi: cur.vs[vi]})
+                else:
+                    vs = {k: v for k, v in cur.vs.items() if k != vi}
+                    if not vs:
+                        return False
+                    new = En(vs)
+                st.store[alloc] = self.write_path(st.store[alloc], path, new, False)
+            return True
         if c[0] == "cmp":
             op, a, b, ty = c[1], c[2], c[3], c[4]
             if not truth:
@@ -818,7 +844,10 @@ class Interp:
                     env_arg = fv
                 if len(self.stack) >= self.max_depth or fv.path in self.stack:
                     return TOP
-                return self.run_body(target, [env_arg] + list(args), st, depth + 1)
+                rv = self.run_body(target, [env_arg] + list(args), st, depth + 1)
+                if isinstance(env_arg, Ref):
+                    st.store.pop(env_arg.alloc, None)
+                return rv
             if fv.callee is not None:
                 return self.call_fn(st, depth, fv.callee, list(args), body, ln)
             if target is not None:
@@ -1066,6 +1095,18 @@ class Interp:
                     pass
                 return []
             self.write_place(st, depth, t["dest"], rv, body, ln)
+            fdef = f.get("def") if "indirect" not in f else None
+            if fdef in ("core::cmp::PartialEq::eq", "core::cmp::PartialEq::ne") and len(args) == 2 \
+                    and not t["dest"]["p"] and isinstance(args[0], Ref) and isinstance(args[1], Ref):
+                va = self.load(st, args[0].alloc, args[0].path)
+                vb = self.load(st, args[1].alloc, args[1].path)
+                for (ra, vo) in ((args[0], vb), (args[1], va)):
+                    if isinstance(vo, En) and len(vo.vs) == 1 and not next(iter(vo.vs.values())) \
+                            and ra.alloc[0] != "const":
+                        st.conds[t["dest"]["l"]] = ("addrvar", ra.alloc, ra.path, next(iter(vo.vs)),
+                                                    fdef.endswith("::eq"))
+                        st.mention.add(t["dest"]["l"])
+                        break
             if st.deref:
                 st.conds = {k2: c for k2, c in st.conds.items() if not _cond_deref(c)}
                 st.copies = {k2: c for k2, c in st.copies.items() if not (c["p"] and c["p"][0] == "*")}
@@ -1075,6 +1116,10 @@ class Interp:
             cv = self.operand(st, depth, t["c"], body, ln)
             exp = 1 if t["exp"] else 0
             msg = t["msg"]
+            if msg["kind"] == "other" and (msg.get("dbg", "").startswith("MisalignedPointerDereference")
+                                           or msg.get("dbg", "").startswith("NullPointerDereference")):
+                # debug-build pointer checks on Box/reference derefs: trusted to hold
+                return [(t["t"], st)]
             may_fail = not (isinstance(cv, int) and cv == exp)
             must_fail = isinstance(cv, int) and cv != exp
             info = {"kind": msg["kind"], "op": msg.get("op"), "may_fail": may_fail,
@@ -1126,6 +1171,8 @@ def _cond_mentions(c, l, deref):
         return p["l"] == l or (deref and p["p"] and p["p"][0] == "*")
     if c[0] == "not":
         return c[1] == l
+    if c[0] == "addrvar":
+        return deref
     return False
 
 
@@ -1140,6 +1187,10 @@ def _cond_deref(c):
         p = c[1]
         return bool(p["p"]) and p["p"][0] == "*"
     return False
+
+
+def _is_heapish(alloc):
+    return isinstance(alloc[0], str)
 
 
 def block_succs(t):
